@@ -361,7 +361,12 @@ class EnumeratedParameterType(ParameterType):
         derived_value : common.StrParameter
             Resulting enum label associated with the (usually integer-)encoded data value.
         """
-        raw_enum_value = super().parse_value(packet).raw_value
+        if isinstance(self.encoding, encodings.NumericDataEncoding):
+            # Read the encoded value directly: calibrators play no role in enum lookups so they must not be
+            # evaluated (a calibrator that fails for this raw value would otherwise fail the lookup)
+            raw_enum_value = self.encoding._get_raw_value(packet)
+        else:
+            raw_enum_value = super().parse_value(packet).raw_value
         # Note: The enum lookup only operates on raw values. This is specified in Fig 4-43 in
         # section 4.3.2.4.3.6 of the XTCE spec CCSDS 660.1-G-2
         # Note, this doesn't prohibit a user from defining a calibrator on an encoding that is used for an enum lookup.
@@ -425,7 +430,12 @@ class BooleanParameterType(ParameterType):
         # NOTE: The XTCE spec states that Booleans are "a restricted form of
         # enumeration." Enumerated parameters are only permitted to perform lookups based on raw encoded values
         # (not calibrated ones). We force this by taking the bool of the raw form of the parsed parameter.
-        parsed_value = super().parse_value(packet).raw_value
+        if isinstance(self.encoding, encodings.NumericDataEncoding):
+            # Read the encoded value directly: calibrators play no role in boolean evaluation so they must not be
+            # evaluated (a calibrator that fails for this raw value would otherwise fail the parameter)
+            parsed_value = self.encoding._get_raw_value(packet)
+        else:
+            parsed_value = super().parse_value(packet).raw_value
         # NOTE: Boolean parameters may behave unexpectedly when encoded as String and Binary values.
         # This is because it's not obvious nor specified in XTCE which values of
         # binary encoded or string encoded data should be truthy/falsy.
